@@ -484,15 +484,17 @@ func cmdCheck(args []string) {
 	cleanup = append(cleanup, func() { os.RemoveAll(tmp) })
 
 	var (
-		mu         sync.Mutex
-		outs       []*batchOut
-		infra      []string
-		stop       bool
-		next       int
-		deadline   = time.Now().Add(spec.WallCap)
-		skipped    int
-		retries    int
-		retryNotes []string
+		mu          sync.Mutex
+		outs        []*batchOut
+		infra       []string
+		stop        bool
+		next        int
+		deadline    = time.Now().Add(spec.WallCap)
+		skipped     int
+		confirmed   []foundViolation
+		unconfirmed []foundViolation
+		retries     int
+		retryNotes  []string
 	)
 	var wg sync.WaitGroup
 	for wkr := 0; wkr < workers; wkr++ {
@@ -561,10 +563,35 @@ func cmdCheck(args []string) {
 				}
 				os.Remove(outPath)
 				outs = append(outs, &bo)
-				if len(bo.Violations) > 0 {
-					stop = true
-				}
 				mu.Unlock()
+				// A reported violation is confirmed at once by replaying its file in a fresh process. Only a
+				// confirmed one ends the search: one that does not reproduce (the code under test keeps state the
+				// simulator does not own, or the machinery is at fault) is counted and shown, and the search goes on.
+				sort.Slice(bo.Violations, func(i, j int) bool { return bo.Violations[i].Run < bo.Violations[j].Run })
+				for _, v := range bo.Violations {
+					mu.Lock()
+					done := stop
+					mu.Unlock()
+					if done {
+						break
+					}
+					ok, outText := replayFile(bi.Bin, v.Replay)
+					if !ok {
+						ok, outText = replayFile(bi.Bin, v.Replay)
+					}
+					mu.Lock()
+					if ok {
+						confirmed = append(confirmed, v)
+						stop = true
+						mu.Unlock()
+						break
+					}
+					if len(unconfirmed) < 5 {
+						fmt.Fprintf(os.Stderr, "UNCONFIRMED: replay of %s did not reproduce rule %s:\n%s\n", v.Replay, v.Rule, tail(outText, 1500))
+					}
+					unconfirmed = append(unconfirmed, v)
+					mu.Unlock()
+				}
 			}
 		}(wkr)
 	}
@@ -581,30 +608,9 @@ func cmdCheck(args []string) {
 	wall := time.Since(t0).Seconds()
 	known := loadKnown()
 	exit := 0
-	var reported []foundViolation
-	for _, o := range outs {
-		for _, v := range o.Violations {
-			reported = append(reported, v)
-		}
-	}
-	sort.Slice(reported, func(i, j int) bool { return reported[i].Run < reported[j].Run })
-	var confirmed []foundViolation
-	var unconfirmed []foundViolation
-	for _, v := range reported {
-		ok, outText := replayFile(bi.Bin, v.Replay)
-		if !ok {
-			// try once more: the replay itself runs in a fresh process and must be deterministic
-			ok, outText = replayFile(bi.Bin, v.Replay)
-		}
-		if !ok {
-			// A violation whose replay file does not reproduce it cannot be reported (and says more about the
-			// machinery than about the code): it is counted, shown, and the next reported one is tried.
-			fmt.Fprintf(os.Stderr, "UNCONFIRMED: replay of %s did not reproduce rule %s:\n%s\n", v.Replay, v.Rule, tail(outText, 1500))
-			unconfirmed = append(unconfirmed, v)
-			continue
-		}
-		confirmed = append(confirmed, v)
-		break // one is enough; report the first
+	sort.Slice(confirmed, func(i, j int) bool { return confirmed[i].Run < confirmed[j].Run })
+	if len(confirmed) > 1 {
+		confirmed = confirmed[:1] // one is enough; report the first
 	}
 	agg.Unconfirmed = len(unconfirmed)
 	for _, k := range known {
